@@ -432,7 +432,7 @@ func main() {
 				time.Sleep(p.delay)
 				switch p.kind {
 				case 0:
-					meta := &shell.ShellMeta{Command: "sh", Args: []string{"-c", "echo S >> " + logFile + "; sleep 0.03; echo E >> " + logFile}}
+					meta := &shell.ShellMeta{Command: "sh", Args: []string{"-c", "echo S >> " + logFile + "; sleep 0.05; echo E >> " + logFile}}
 					for try := 0; try < 60; try++ {
 						if _, ok := attempt(meta); ok {
 							return
@@ -440,11 +440,19 @@ func main() {
 						time.Sleep(time.Millisecond)
 					}
 				case 1:
-					sid, _ := attempt(&shell.ShellMeta{Command: "sleep", Args: []string{"5"}})
+					sid, ok := attempt(&shell.ShellMeta{Command: "sleep", Args: []string{"5"}})
+					for try := 0; !ok && try < 60; try++ {
+						time.Sleep(time.Millisecond)
+						sid, ok = attempt(&shell.ShellMeta{Command: "sleep", Args: []string{"5"}})
+					}
 					time.Sleep(time.Duration(2+i%5) * time.Millisecond)
 					h.HandleStreamClose(sid)
 				case 2:
-					sid, _ := attempt(&shell.ShellMeta{Command: "sleep", Args: []string{"5"}})
+					sid, ok := attempt(&shell.ShellMeta{Command: "sleep", Args: []string{"5"}})
+					for try := 0; !ok && try < 60; try++ {
+						time.Sleep(time.Millisecond)
+						sid, ok = attempt(&shell.ShellMeta{Command: "sleep", Args: []string{"5"}})
+					}
 					time.Sleep(time.Duration(1+i%3) * time.Millisecond)
 					var w2 sync.WaitGroup
 					for k := 0; k < 2; k++ {
@@ -679,9 +687,9 @@ func main() {
 			storm(c.Rand.Pick(0, 1, 1, 2, 3, 5), c.Rand.Pick(2, 4, 8, 16), c.Rand.Pick(10, 50, 200))
 		}
 		// 4b. handler-level storms with real processes
-		nh := c.N(6, 60)
+		nh := c.N(8, 80)
 		for i := 0; i < nh; i++ {
-			handlerStorm(handlerCase{Max: c.Rand.Pick(1, 2, 3), Streams: c.Rand.Pick(8, 16, 24), Seed: c.Rand.U64() >> 1})
+			handlerStorm(handlerCase{Max: c.Rand.Pick(1, 2, 2, 2, 3), Streams: c.Rand.Pick(12, 16, 24), Seed: c.Rand.U64() >> 1})
 		}
 		// 5. real process starts
 		procBase := authCase{Enabled: true, Whitelist: []string{"touch", "true"}, HasHash: true, Max: 1, Command: "touch", Password: rightPassword, Args: []string{"@M@"}}
